@@ -112,6 +112,7 @@ namespace R
       std::vector< T::StEv > st_log;
       std::vector< T::SwAct > sw_acts;
       std::vector< std::array< int, 3 > > ctl_log;
+      long cov[ 16 ][ 4 ] = {};  // per rule: start, success, failure, unwind (what the coverage facility must count)
 
       void reset( long f )
       {
@@ -125,6 +126,7 @@ namespace R
          st_log.clear();
          sw_acts.clear();
          ctl_log.clear();
+         memset( cov, 0, sizeof cov );
       }
       void touch( int pos )
       {
@@ -411,6 +413,7 @@ namespace R
          const size_t sw_mark = sw_acts.size();
          trail.push_back( { 0, int16_t( I ), pos, uint8_t( in.am ) } );
          ctl_log.push_back( { in.ctl, I, pos } );
+         ++cov[ I ][ 0 ];
          touch( pos );
          const Entry e = tab[ I ];
          const int hw_old = hw;
@@ -454,6 +457,7 @@ namespace R
             trail.resize( mark );
             sw_acts.resize( sw_mark );
          }
+         ++cov[ I ][ r.k == OK ? 1 : r.k == FAIL ? 2 : 3 ];
          return r;
       }
 
